@@ -38,7 +38,25 @@ func arithmaticEqualityHelper(test func(float64, float64) bool) KeyBuilderFuncti
 			return stageArgError(ErrNum, 1)
 		}
 
+		// Integers are compared as integers: float64 cannot tell values beyond 2^53 apart
+		leftInt, liOk := evalTypedStage(args[0], typedParserInt)
+		rightInt, riOk := evalTypedStage(args[1], typedParserInt)
+
 		return KeyBuilderStage(func(context KeyBuilderContext) string {
+			if liOk && riOk {
+				if li, ok := leftInt(context); ok {
+					if ri, ok := rightInt(context); ok {
+						sign := 0.0
+						if li < ri {
+							sign = -1.0
+						} else if li > ri {
+							sign = 1.0
+						}
+						return TruthyStr(test(sign, 0.0))
+					}
+				}
+			}
+
 			left, lOk := leftArg(context)
 			if !lOk {
 				return ErrorNum
